@@ -147,8 +147,21 @@ def handleR (car : Carrier α) (args : List String) : String :=
   | _ => "bad-op"
 end
 
+def parseOptNat? (s : String) : Option (Option Nat) := if s = "N" then some none else s.toNat?.map some
+
 def handle (args : List String) : String :=
   match args with
+  | ["rsi", shape, index] => Id.run do
+      let some shape := parseNatList? shape | return "bad-op"
+      let some index := (index.splitOn ";").mapM parseOptNat? | return "bad-op"
+      if shape.length ≠ index.length || shape.isEmpty || shape.any (· ≤ 1) then return "error"
+      if (shape.zip index).any (fun p => match p.2 with | some v => v > p.1 | none => false) then return "error"
+      let (rs, ri) := reduceShapeIndex shape index
+      return natListStr rs ++ " " ++ ";".intercalate (ri.map fun o => match o with | some v => toString v | none => "N")
+  | ["slicepos", n, c] => Id.run do
+      let some n := n.toNat? | return "bad-op"
+      let some c := parseNatList? c | return "bad-op"
+      return natListStr (controlPositions n c) ++ " " ++ (if controlPositions n c == controlPositionsBitwise n c then "slice=bitwise" else "MODEL-MISMATCH")
   | op :: "Z" :: rest => handleR carZ (op :: rest)
   | op :: "Q" :: rest => handleR carQ (op :: rest)
   | _ => "bad-op"
